@@ -88,6 +88,10 @@ def gen(rng):
                 first = '0001-01-01T00:00:00'
             date_s = first
             extra = 'DeletionDate=%s\n' % rng.choice(['0001-01-01T00:00:00', '9999-01-01T00:00:00', 'junk'])
+            if rng.random() < 0.5:
+                # the FIRST line is malformed, a later one is a proper (old or young) date: the first line decides - no usable date
+                date_s = rng.choice(['junk', '', '2020-13-01T00:00:00', '2003-03-03T10:00:00Z', ' 2001-01-01T00:00:00'])
+                extra = 'DeletionDate=%s\n' % rng.choice(['0001-01-01T00:00:00', '1999-01-01T00:00:00', first, '9999-01-01T00:00:00'])
         content = '[Trash Info]\nPath=%s\n' % pv
         if date_s is not None:
             content += 'DeletionDate=%s\n' % date_s
